@@ -621,6 +621,11 @@ class ApertureFamily:
             # keep annuli valid: scale inner and outer consistently
             val = cur * rng.uniform(0.9, 1.1)
             return {'op': 'set', 'name': nm, 'value': val}
+        if r < 0.49 and r >= 0.46:
+            # drawing the aperture on a cutout of the image (origin = the
+            # cutout's lower-left corner) is a read
+            return {'op': 'plot', 'origin': [rng.uniform(1, 9),
+                                             rng.uniform(-4, 7)]}
         if r < 0.46:
             return {'op': 'alias', 'how': rng.pick(['edit_source',
                                                     'sibling_inplace',
@@ -684,6 +689,15 @@ class ApertureFamily:
         if st.dead:
             raise Inapplicable('dead')
         o = st.obj
+        if op['op'] == 'plot':
+            if not hasattr(o, 'plot'):
+                return
+            from matplotlib.figure import Figure
+            ax = Figure().subplots()
+            out = call(o.plot, ax=ax, origin=tuple(op['origin']))
+            st.stats.probe('plotted_with_origin' if not isinstance(
+                out, Raised) else 'plot_raised')
+            return
         if op['op'] == 'alias':
             # in-place edits of arrays that are *not* the aperture: the
             # array it was built from, the positions of an aperture built
@@ -1006,6 +1020,16 @@ class PSFPhotFamily:
             st.hist.append(tag)
             st.ncalls += 1
             st.last_call = op
+            # the containers themselves (not copies): a caller that keeps
+            # phot.fit_info / phot.fit_results of one image must not find
+            # the next image's diagnostics in them
+            if st.held is not None:
+                for nm in (('fit_results',) if st.cfg['iterative'] else
+                           ('fit_info', 'fit_params', 'results',
+                            'finder_results', 'init_params')):
+                    v = call(getattr, o, nm)
+                    if not isinstance(v, Raised):
+                        st.held.add(nm, v)
             return
         if st.last_call is None:
             raise Inapplicable('no call yet')
@@ -1281,10 +1305,10 @@ class FreshMachine(Machine):
         st.stats, st.trace, st.cfg = stats, trace, plan['cfg']
         st.scene = plan['scene']
         st.nops = 0
-        # values handed out earlier must stay what they were (not for the
-        # psf tables, whose digests are comparatively expensive)
+        # values handed out earlier must stay what they were
         st.held = Held() if self.variant in ('background', 'profile',
-                                             'aperture', 'finder') else None
+                                             'aperture', 'finder') else \
+            Held(limit=8) if self.variant == 'psfphot' else None
         self.fam.start(st, plan)
         return st
 
